@@ -534,7 +534,11 @@ func vpMatchesModel(tag string, o *vpObs, e *vpExpect, opt vpMatchOpts) {
 }
 
 // vpSameObs asserts two observations are identical.
-func vpSameObs(tag string, a, b *vpObs) {
+func vpSameObs(tag string, a, b *vpObs) { vpSameObsOpt(tag, a, b, false) }
+
+// vpSameObsOpt: with skipDictCounts the Count() of dictionary iterator entries
+// is not compared (PostingsList.Count still is).
+func vpSameObsOpt(tag string, a, b *vpObs, skipDictCounts bool) {
 	vpAssert(a.count == b.count, tag+": Count()")
 	vpAssert(vpStrsEq(a.fields, b.fields), tag+": field list")
 	vpAssert(len(a.dict) == len(b.dict), tag+": probed fields")
@@ -545,7 +549,9 @@ func vpSameObs(tag string, a, b *vpObs) {
 			ok := true
 			for i := range ea {
 				vpAssert(ea[i].term == eb[i].term, tag+": dictionary terms")
-				ok = vpAnd(ok, ea[i].count == eb[i].count)
+				if !skipDictCounts {
+					ok = vpAnd(ok, ea[i].count == eb[i].count)
+				}
 			}
 			vpAssert(ok, tag+": dictionary counts")
 		}
